@@ -2,8 +2,24 @@ import CopVerif.Real.Inst
 import CopVerif.Gen.VineFlowGen
 import CopVerif.Props.C17
 import CopVerif.Props.C17b
+/-!
+# C17c — the C17 theorems re-checked against what the code says NOW (translator tie)
+
+`tools/gen_vineflow.py` regenerates `Gen/VineFlowGen.lean` from the AST of `copulas/multivariate/tree.py`
+(`Edge._identify_eds_ing`, `Edge.get_conditional_uni`, `Edge.get_child_edge`, `Edge.get_likelihood`,
+`Tree.get_likelihood`, `Tree.prepare_next_tree`, `Tree.get_adjacent_matrix`) and `vine.py` (`get_likelihood`,
+`_sample_row`) on every run.  This file proves,
+for ALL inputs, that the generated definitions equal the hand model `Model/VineFlow.lean` (`gen_*_eq`), so every
+theorem of `Props/C17.lean` / `C17b.lean` transfers; the main ones are restated over the generated definitions,
+with the two recorded findings reproduced BY the generated code (`…_counterexample`, by evaluation).
+A change of an index (`U[0]`/`U[1]`, `L`/`R`, `parents[0]`/`[1]`, row/column of a cell), of a set operation, of the
+operand order of a pair-copula call or of the 0/1 correction breaks a `gen_*_eq` bridge.
+-/
 namespace CopVerif.Props.C17c
 open CopVerif CopVerif.Model.VineFlow CopVerif.Gen.VineFlowGen
+
+theorem nat_beq_comm (a b : Nat) : (a == b) = (b == a) := by
+  rw [Bool.eq_iff_iff]; simp only [beq_iff_eq]; exact eq_comm
 
 theorem pyInsertSorted_length (x : Nat) (l : List Nat) : (pyInsertSorted x l).length = l.length + 1 := by
   induction l with
@@ -63,6 +79,8 @@ theorem gen_condUni_eq (p0 p1 : Edge) (i0 i1 : Nat) : getConditionalUni p0 p1 i0
   | ok v =>
     obtain ⟨l, r, D⟩ := v
     simp only [bind, Except.bind, pure, Except.pure]
+    try rw [nat_beq_comm l p0.L]
+    try rw [nat_beq_comm r p1.L]
     congr 2 <;> split <;> rfl
 
 /-- `Tree.prepare_next_tree` (input selection) as translated = `edgePlan`. -/
@@ -223,6 +241,113 @@ theorem gen_childEdge_eq (idx : Nat) (p0 p1 : Edge) (i0 i1 : Nat) :
     | error x => rfl
     | ok inp => rfl
 
+/-- `Tree.get_adjacent_matrix` as translated = `adjB`. -/
+theorem gen_adj_eq (t : Tree) (a b : Nat) : adjGen t a b = adjB t a b := by
+  simp [adjGen, adjB, adjWrites]
+
+theorem gen_adjRow_eq (t : Tree) (d c : Nat) : adjRowGen t d c = adjRow t d c := by
+  unfold adjRowGen adjRow srNeighbor
+  congr 1
+  funext s
+  exact gen_adj_eq t c s
+
+/-- the `while explore` traversal as generated = `traverse`. -/
+theorem gen_traverse_eq (t : Tree) (d : Nat) (fuel : Nat) (ex vis : List Nat) :
+    traverseGen t d fuel ex vis = traverse t d fuel ex vis := by
+  induction fuel generalizing ex vis with
+  | zero => cases ex <;> rfl
+  | succ n ih =>
+    cases ex with
+    | nil => rfl
+    | cons c rest =>
+      unfold traverseGen Model.VineFlow.traverse
+      simp only [gen_adjRow_eq, ih, srNewNeighbor]
+      try rfl
+
+theorem gen_upperCond_eq (e : Edge) (current : Nat) (visited : List Nat) :
+    srUpperCond e current visited = e.vars.all (fun x => x == current || visited.contains x) := by
+  rw [Bool.eq_iff_iff]
+  simp only [srUpperCond, pySubset, pyAdd, pySet, Edge.vars, List.all_eq_true,
+    List.mem_append, List.mem_cons, List.not_mem_nil, or_false, Bool.or_eq_true, beq_iff_eq,
+    List.contains_eq_mem, decide_eq_true_eq]
+  constructor
+  · intro h x hx
+    rcases hx with rfl | rfl | hx
+    · exact (h _ (Or.inl (Or.inr rfl))).symm
+    · exact (h _ (Or.inr rfl)).symm
+    · exact (h _ (Or.inl (Or.inl hx))).symm
+  · intro h x hx
+    rcases hx with (hx | rfl) | rfl
+    · exact (h _ (Or.inr (Or.inr hx))).symm
+    · exact (h _ (Or.inl rfl)).symm
+    · exact (h _ (Or.inr (Or.inl rfl))).symm
+
+theorem gen_firstLevel_eq (e : Edge) (c v0 : Nat) :
+    srFirstLevel e c v0 = ((e.L == c && e.R == v0) || (e.R == c && e.L == v0)) := by
+  unfold srFirstLevel
+  try rw [nat_beq_comm c e.L]
+  try rw [nat_beq_comm c e.R]
+  try rw [nat_beq_comm v0 e.L]
+  try rw [nat_beq_comm v0 e.R]
+  cases (e.L == c) <;> cases (e.R == v0) <;> cases (e.R == c) <;> cases (e.L == v0) <;> rfl
+
+theorem gen_upperTouch_eq (e : Edge) (c : Nat) : srUpperTouch e c = (e.L == c || e.R == c) := by
+  unfold srUpperTouch
+  try rw [nat_beq_comm c e.L]
+  try rw [nat_beq_comm c e.R]
+  cases (e.L == c) <;> cases (e.R == c) <;> rfl
+
+/-- the level search as generated = `findEdge`. -/
+theorem gen_findEdge_eq (i : Nat) (tree : Tree) (current v0 : Nat) (visited : List Nat) :
+    findEdgeGen i tree current v0 visited = findEdge i tree current v0 visited := by
+  have h1 : (fun e => srFirstLevel e current v0) =
+      fun e : Edge => (e.L == current && e.R == v0) || (e.R == current && e.L == v0) :=
+    funext fun e => gen_firstLevel_eq e current v0
+  have h2 : (fun e => srUpperTouch e current) = fun e : Edge => (e.L == current || e.R == current) :=
+    funext fun e => gen_upperTouch_eq e current
+  unfold findEdgeGen findEdge srIsFirst srFound
+  rw [h1, h2]
+  by_cases hi : i = 0
+  · subst hi
+    simp only [beq_self_eq_true, if_true]
+    try rfl
+  · have : (i == 0) = false := by simp [hi]
+    simp only [this, hi, if_false, Bool.false_eq_true, gen_upperCond_eq]
+    try rfl
+
+theorem gen_visitSteps_eq (trees : List Tree) (trunc itr current v0 : Nat) (visited : List Nat) (n : Nat)
+    (hn : n ≤ itr) :
+    visitStepsGen trees trunc itr current v0 visited n = visitSteps trees trunc itr current v0 visited n := by
+  induction n with
+  | zero => rfl
+  | succ i ih =>
+    have ih := ih (by omega)
+    have hf : srFresh i itr = (i + 1 == itr) := by
+      unfold srFresh
+      rw [Bool.eq_iff_iff]; simp; omega
+    unfold visitStepsGen visitSteps
+    simp only [ih, gen_findEdge_eq, hf, srSkipLevel, decide_eq_true_eq]
+    try rfl
+
+theorem gen_annotate_eq (trees : List Tree) (trunc : Nat) (order : List (Nat × List Nat)) (itr : Nat) (td : Bool) :
+    annotateGen trees trunc itr td order = annotate trees trunc itr td order := by
+  induction order generalizing itr td with
+  | nil => rfl
+  | cons p rest ih =>
+    obtain ⟨c, visited⟩ := p
+    cases visited with
+    | nil => simp only [annotateGen, annotate, ih] <;> try rfl
+    | cons v0 vs => simp only [annotateGen, annotate, ih, gen_visitSteps_eq _ _ _ _ _ _ _ (Nat.le_refl _)] <;> try rfl
+
+/-- **`_sample_row` as generated = `sampleRow`** (traversal order, level search, which pair copulas are inverted in
+which order, fresh / stale `tmp`). -/
+theorem gen_sampleRow_eq (trees : List Tree) (d trunc first : Nat) :
+    sampleRowGen trees d trunc first = sampleRow trees d trunc first := by
+  unfold sampleRowGen sampleRow
+  cases trees with
+  | nil => rfl
+  | cons t ts => simp only [gen_traverse_eq, gen_annotate_eq] <;> try rfl
+
 /-! ## the C17 theorems, restated over the GENERATED definitions -/
 
 /-- if the model's plan exists, the generated `get_likelihood` returns a result whose reads are that plan. -/
@@ -370,6 +495,48 @@ theorem gen_likelihood_deterministic_counterexample :
   rw [gen_likValue_eq, gen_likValue_eq, hg2]
   exact h2
 
+
+/-! ## sampling, over the generated traversal -/
+
+/-- **`sample_shape` for the generated `_sample_row`**: on a first tree that is a spanning tree (certificate
+`rootedOK`, re-checked by the driver on every real first tree and start node) the generated `while explore` loop
+terminates and assigns every column exactly once: the visit order is a permutation of the variables. -/
+theorem gen_sample_shape {t : Tree} {d first : ℕ} {par depth : List ℕ}
+    (h : rootedOK t d first par depth = true) :
+    ∃ tr, traverseGen t d (d * d + d + 1) [first] [] = .ok tr ∧ (tr.map (·.1)).Perm (List.range d) ∧
+      rowCells d (tr.map (·.1)) = List.replicate d 1 := by
+  obtain ⟨order, h1, h2⟩ := visitOrder_perm h
+  rw [gen_traverse_eq]
+  unfold visitOrder at h1
+  cases htr : Model.VineFlow.traverse t d (d * d + d + 1) [first] [] with
+  | error e => simp [htr] at h1
+  | ok tr =>
+    simp only [htr, Except.ok.injEq] at h1
+    subst h1
+    exact ⟨tr, rfl, h2, rowCells_of_perm h2⟩
+
+example : ∀ first < 4, rootedOK C17.dvine4.head! 4 first (bfsRoot C17.dvine4.head! 4 first).1
+    (bfsRoot C17.dvine4.head! 4 first).2 = true := by decide
+
+/-- the visits the generated `_sample_row` reports are the traversal order of the first tree. -/
+theorem gen_sampleRow_visits {t : Tree} {rest : List Tree} {d trunc first : ℕ} {vs : List Visit}
+    (h : sampleRowGen (t :: rest) d trunc first = .ok vs) :
+    visitOrder t d first = .ok (vs.map (·.current)) := by
+  rw [gen_sampleRow_eq] at h
+  exact C17.sampleRow_visits rfl h
+
+example : sampleRowGen C17.dvine4 4 3 0 = sampleRow C17.dvine4 4 3 0 ∧
+    (sampleRowGen C17.dvine4 4 3 0).toOption.isSome = true := ⟨gen_sampleRow_eq _ _ _ _, by decide⟩
+
+/-- **Partial** (as `C17.two_column_sampling_partial`): for two columns the generated sampler is
+`x_first = PPF_first(u_first)`, `x_other = PPF_other(clamp(C⁻¹(u_other | u_first)))` for either start node; the
+statistical agreement of the output is C09/C03 plus the deep search, not a theorem. -/
+theorem gen_two_column_sampling_partial (n : ℕ) :
+    sampleRowGen [[⟨0, 0, 1, [], none⟩]] 2 (n + 1) 0 = .ok [⟨0, none, []⟩, ⟨1, some 0, [⟨0, 0, true⟩]⟩] ∧
+    sampleRowGen [[⟨0, 0, 1, [], none⟩]] 2 (n + 1) 1 = .ok [⟨1, none, []⟩, ⟨0, some 1, [⟨0, 0, true⟩]⟩] := by
+  rw [gen_sampleRow_eq, gen_sampleRow_eq]
+  exact C17.two_column_sampling_partial n
+
 /-! ### unconditional on the vines covered by C17b -/
 
 section
@@ -421,5 +588,19 @@ theorem gen_edge_inputs_spec {vt : Vine.VType} {d t : Nat} {cs : List (Vine.Choi
   rw [gen_edgePlan_eq]
   exact C17b.edge_inputs_spec hd hcs h hcov k hk e he
 end
+
+section Examples
+open CopVerif.Model CopVerif.Model.VineGood
+local instance : NumFns Int := intFns
+
+/-- non-vacuity of the covered-vine theorems: an accepted C-vine run on 5 columns, full depth; the GENERATED
+`get_likelihood` on its conversion returns a plan all of whose reads are written (here by evaluation). -/
+example : ∃ r g, Vine.trainVine .center 5 4 cvine5Choices = .ok r ∧
+    vineGetLikelihood (toFlow (C16.treesOf r)) = .ok g ∧
+    (g.all fun lv => lv.all fun e => (toLikEdge e).readsWritten) = true := ⟨_, _, rfl, rfl, by decide⟩
+
+example : ∃ r plan, Vine.trainVine .direct 3 2 [⟨zeroTau 3, [2, 1]⟩, ⟨zeroTau 2, []⟩] = .ok r ∧
+    fitPlanGen (toFlow (C16.treesOf r)) = .ok plan := ⟨_, _, rfl, rfl⟩
+end Examples
 
 end CopVerif.Props.C17c
